@@ -30,7 +30,7 @@ BACKOFF_MS = 50
 ALPHABET = {"Config", "JoinRequest", "JoinReply", "SyncRequest", "SyncReply", "HeartbeatReply", "OffsetCommitReply",
             "OffsetFetchReply", "LeaveGroup", "GroupState", "SessionExpired", "RebalanceTimeoutKick", "GroupFailover",
             "Fault", "BeginReassign", "Adopt", "RevokeStart", "RevokeEnd", "AssignStart", "AssignEnd", "Take",
-            "ResetTo", "Started", "StopCall", "Stopped", "Killed", "SubChange", "Unassign", "End", "EndDelivery", "Hang", "Crash",
+            "ResetTo", "Started", "StopCall", "Stopped", "Killed", "SubChange", "Unassign", "End", "EndDelivery", "Hang", "Crash", "TopicGrows",
             "ClientError"}
 
 GROUP_CODES = {"JoinGroup": [14, 15, 16, 25], "SyncGroup": [15, 16, 22, 25, 27], "Heartbeat": [15, 16, 22, 25, 27],
@@ -126,7 +126,7 @@ def run_scenario(sc: dict):
         cons = AIOKafkaConsumer(
             bootstrap_servers="broker0:9092", group_id=GROUP, client_id=name, auto_offset_reset="earliest",
             request_timeout_ms=REQUEST_MS, session_timeout_ms=SESSION_MS, heartbeat_interval_ms=HEARTBEAT_MS,
-            rebalance_timeout_ms=REBALANCE_MS, retry_backoff_ms=BACKOFF_MS, metadata_max_age_ms=4000,
+            rebalance_timeout_ms=REBALANCE_MS, retry_backoff_ms=BACKOFF_MS, metadata_max_age_ms=sc.get("metadata_max_age_ms", 4000),
             enable_auto_commit=spec.get("auto_commit", True), auto_commit_interval_ms=spec.get("commit_interval_ms", 900),
             partition_assignment_strategy=tuple(ASSIGNORS[a] for a in spec["assignors"]), fetch_max_wait_ms=100,
             max_poll_records=spec.get("max_poll_records"))
@@ -172,7 +172,8 @@ def run_scenario(sc: dict):
         log.emit("Config", clients=[f"c{i}" for i in range(len(sc["members"]))],
                  assignors={f"c{i}": m["assignors"] for i, m in enumerate(sc["members"])},
                  subs=subs, parts={t: [f"{t}-{p}" for p in range(n)] for t, n in sc["topics"].items()},
-                 loglen=sc["loglen"], join_max=sc.get("join_max", 5), request_ms=REQUEST_MS)
+                 loglen=sc["loglen"], join_max=sc.get("join_max", 5), request_ms=REQUEST_MS,
+                 topic_of={f"{t}-{p}": t for t, n in sc["topics"].items() for p in range(n + len(sc.get("grow", [])) + (1 if sc.get("grow_at_sync") else 0))})
         tasks = {}
         for i, m in enumerate(sc["members"]):
             ctx = __import__("contextvars").copy_context()
@@ -220,6 +221,31 @@ def run_scenario(sc: dict):
                 simcluster.build_log(pl, [{"kind": "data", "offs": list(range(pl.leo, pl.leo + k_)), "last": pl.leo + k_ - 1,
                                            "magic": 2}])
             loop.call_later(t_, do_append, context=cl.ctx)
+        for t_, topic_ in sc.get("grow", []):
+            # the topic gains a partition while the group is running: the leader must trigger a rebalance for it
+            def do_grow(topic_=topic_):
+                n = len([1 for (tt, _p) in cl.parts if tt == topic_])
+                cl.parts[(topic_, n)] = simcluster.PartitionLog(topic_, n, rng.randrange(sc["nnodes"]), 0)
+                log.emit("TopicGrows", topic=topic_, tp=f"{topic_}-{n}")
+            loop.call_later(t_, do_grow, context=cl.ctx)
+        if sc.get("grow_at_sync"):
+            # ... exactly while the leader's SyncGroup is in flight: the reply is held long enough for the leader's
+            # next periodic metadata refresh to see the new partition
+            nth, topic_, hold = sc["grow_at_sync"]
+            orig_plan_g = director.plan
+            seen = [0]
+
+            def plan_g(cluster, ctx):
+                pln = orig_plan_g(cluster, ctx)
+                if ctx.api == "SyncGroup" and len(getattr(ctx.req, "group_assignment", None) or getattr(ctx.req, "assignments", None) or []) > 0:
+                    seen[0] += 1
+                    if seen[0] == nth:
+                        n = len([1 for (tt, _p) in cl.parts if tt == topic_])
+                        cl.parts[(topic_, n)] = simcluster.PartitionLog(topic_, n, rng.randrange(sc["nnodes"]), 0)
+                        log.emit("TopicGrows", topic=topic_, tp=f"{topic_}-{n}")
+                        pln.delay_out = max(pln.delay_out, hold)
+                return pln
+            director.plan = plan_g
         if sc.get("slow_offset_fetch") or sc.get("noleader"):
             orig_plan = director.plan
 
@@ -255,7 +281,8 @@ def run_scenario(sc: dict):
         g = gsim.group(GROUP)
         log.emit("End", live=live, fin=fin, ggen=g.generation, gstate=g.state, gmembers=sorted(g.members),
                  joins_in_window=sum(1 for e in window if e["e"] == "JoinRequest"),
-                 committed={f"{t}-{p}": g.offsets.get((t, p), (-1, ""))[0] for (t, p) in cl.parts})
+                 committed={f"{t}-{p}": g.offsets.get((t, p), (-1, ""))[0] for (t, p) in cl.parts},
+                 parts={t: sorted(f"{t}-{p}" for (tt, p) in cl.parts if tt == t) for t in sc["topics"]})
         log.emit("EndDelivery", live=live, leo={f"{t}-{p}": pl.leo for (t, p), pl in cl.parts.items()})
         for n in live:
             stopped[n] = True
